@@ -47,7 +47,12 @@ fn validation_configs(tier: Tier) -> Vec<(Cfg, Plan)> {
     let mut v = Vec::new();
     let mut push = |ty: Ty, part: Part| v.push((Cfg::Val(VCfg { ty, part }), Plan::tree(1)));
     for ty in ALL_TYPES {
-        // the full length-3 sweep (16.7 M inputs per type) in chunks by first byte
+        // the full length-3 sweep (16.7 M inputs per type) in chunks by first byte; the quick tier does it
+        // for the three file system types and sweeps a 32 byte alphabet for the others
+        if quick && !matches!(ty, Ty::FileName | Ty::Path | Ty::FilePath) {
+            push(ty, Part::Len3 { lo: 0, hi: 256, restricted: true });
+            continue;
+        }
         let chunks = if quick { 4 } else { 8 };
         let step = 256 / chunks;
         for k in 0..chunks {
@@ -106,8 +111,10 @@ fn isolation_configs(tier: Tier) -> Vec<(Cfg, Plan)> {
                 4
             };
             let frontier = if !quick && same_root { Some((120, 7)) } else { None };
-            let plan = Plan { tree_depth: depth, finish_prefixes: false, frontier, split: if !quick && depth == 5 { 3 } else { 1 } };
-            v.push((Cfg::Iso(ICfg { a: DomCfg { prefix: pa, root: ra }, b: DomCfg { prefix: pb, root: rb }, spawn_anytime: !quick && same_root }), plan));
+            // a step is dominated by blocking system calls (fsync, process start), not by CPU time: every
+            // pair is split over its three first operations
+            let plan = Plan { tree_depth: depth, finish_prefixes: false, frontier, split: 3 };
+            v.push((Cfg::Iso(ICfg { a: DomCfg { prefix: pa, root: ra }, b: DomCfg { prefix: pb, root: rb }, spawn_anytime: !quick && same_root, pubsub: !quick }), plan));
         }
     }
     v
@@ -139,7 +146,7 @@ impl Harness for H {
         }
         let _ = std::fs::remove_dir_all(&dir);
         format!(
-            "(a) validation: one execution = one chunk of the input space of one string type (FileName, RestrictedFileName<8>, Path, FilePath, UserName, GroupName, Base64Url, ServiceName, NodeName); the single operation CheckChunk loops over the chunk. Chunks per type: every byte string of length 0..=2 over 0..=255; every byte string of length 3 over 0..=255 (both tiers, split by first byte; for the &str constructors of ServiceName / NodeName only the valid UTF-8 strings are expressible); every string over {{'a','/','.',NUL,one type specific byte}} up to length 8; strings of length max-1, max, max+1, max+2 with special bytes and endings at the borders; every mutating operation (push, push_bytes, insert, insert_bytes, remove, remove_range, pop, retain, strip_prefix, strip_suffix, truncate) with every byte (single byte operations: 0..=255) / chunk of length <= 2 over a 12 byte alphabet / position on every accepted string of length <= 2 over that alphabet; derived names (FilePath::file_name/path, Path::entries, FilePath::from_path_and_file, Path::add_path_entry). Each input is compared with an independent predicate written from the documentation (accept <=> predicate, round trip through as_bytes / Display / Into<String>, a rejected edit leaves the value untouched, accepted file names contain no separator, NUL, '.' or '..'). This run: {inputs} inputs in {chunks} chunks checked, {accepted} accepted. (b) isolation: every sequence of create/drop node, create/drop service `svc` (publish-subscribe, event), 'a forked process creates a node and a service and dies', cleanup of dead nodes by two applications A and B (ipc service type) for pairs of domain configurations drawn from 6 prefix relations (same, prefix of one another in both directions, common stem in both directions, unrelated) x 4 root path relations (same, nested in both directions, unrelated) - thorough: all 24, quick: 11 covering every relation; after every step both sides list nodes, list services and call does_exist, the side that did not act also tries to open, and must see exactly the objects of their own domain; files and shared memory objects that appear carry the acting side's prefix and files lie under its root. A distinct state is (node, services held, dead nodes) of both sides."
+            "(a) validation: one execution = one chunk of the input space of one string type (FileName, RestrictedFileName<8>, Path, FilePath, UserName, GroupName, Base64Url, ServiceName, NodeName); the single operation CheckChunk loops over the chunk. Chunks per type: every byte string of length 0..=2 over 0..=255; every byte string of length 3 over 0..=255 (thorough tier: every type; quick tier: FileName, Path and FilePath, the other types over a 32 byte alphabet; split by first byte; for the &str constructors of ServiceName / NodeName only the valid UTF-8 strings are expressible); every string over {{'a','/','.',NUL,one type specific byte}} up to length 8; strings of length max-1, max, max+1, max+2 with special bytes and endings at the borders; every mutating operation (push, push_bytes, insert, insert_bytes, remove, remove_range, pop, retain, strip_prefix, strip_suffix, truncate) with every byte (single byte operations: 0..=255) / chunk of length <= 2 over a 12 byte alphabet / position on every accepted string of length <= 2 over that alphabet; derived names (FilePath::file_name/path, Path::entries, FilePath::from_path_and_file, Path::add_path_entry). Each input is compared with an independent predicate written from the documentation (accept <=> predicate, round trip through as_bytes / Display / Into<String>, a rejected edit leaves the value untouched, accepted file names contain no separator, NUL, '.' or '..'). This run: {inputs} inputs in {chunks} chunks checked, {accepted} accepted. (b) isolation: every sequence of create/drop node, create/drop service `svc` (event; thorough tier also publish-subscribe), 'a forked process creates a node and a service and dies', cleanup of dead nodes by two applications A and B (ipc service type) for pairs of domain configurations drawn from 6 prefix relations (same, prefix of one another in both directions, common stem in both directions, unrelated) x 4 root path relations (same, nested in both directions, unrelated) - thorough: all 24, quick: 11 covering every relation; after every step both sides list nodes, list services and call does_exist, the side that did not act also tries to open, and must see exactly the objects of their own domain; files and shared memory objects that appear carry the acting side's prefix and files lie under its root. A distinct state is (node, services held, dead nodes) of both sides."
         )
     }
     fn configs(&self, tier: Tier) -> Vec<(Cfg, Plan)> {
